@@ -1,4 +1,4 @@
 INIT Init
 NEXT Next
-INVARIANTS NeverOK RetryableOnlyForTransient EchoFaultsAreFaults MapperLaws ProofListLaws
+INVARIANTS NeverOK RetryableOnlyForTransient EchoFaultsAreFaults MapperLaws ProofListLaws EntryShapeLaws MethodLaws
 CHECK_DEADLOCK FALSE
